@@ -157,6 +157,21 @@ class LockRule:
         n_sites = 0
         holders = 0
         order_edges = set()
+        # K6 no guard leaves the library: a public function that returns a live shard guard lets the *caller* hold the shard's
+        # read lock across its next query; a cold query then inserts into the same cache and, when the key falls into the held
+        # shard, waits for a lock its own thread holds (one thread, no schedule needed). K1 covers the library's own callers;
+        # nothing can cover callers outside it, so the only sound discipline is that the guard type does not escape
+        for b in prog.bodies.values():
+            if b.rec["kind"] == "Closure" or not is_guard_ty(b.rec.get("sig_output", "")):
+                continue
+            if not b.file.startswith(scope_files):
+                continue
+            nm = strip_generics(b.id).split("::")
+            key = "K6:guard-escapes:%s" % "::".join(nm[-2:])
+            if b.rec.get("vis") == "Public":
+                rep.bad("R-LOCK", "R-LOCK:" + key, b.where(), "K6: public %s returns %s: a caller that keeps the answer while issuing another (cold) query blocks on the shard lock it holds itself" % (strip_generics(b.id), b.rec.get("sig_output", "")[:80]))
+            else:
+                rep.ok("R-LOCK", key, b.where(), "K6: returns a guard, but only to the library's own callers (held spans checked by K1)")
         # K3 method whitelist
         for fid, acc in sorted(self.direct.items()):
             body = prog.bodies[fid]
